@@ -22,12 +22,36 @@ EXTRA = [
     "subroutine s\n a = 1; b = 2; if (a) c = 3\n do i = 1, 2; a = i; end do\nend\n",
     "subroutine s\n if (a) then; b = 1; else if (c) then; b = 2; else; b = 3; end if\nend\n",
     "program p\n integer :: sin\n block\n real :: x\n x = sin(1.0)\n end block\ncontains\n subroutine q\n x = sin(2.0)\n end subroutine q\nend program p\n",
+    "subroutine s\n a = 1; b = 2;\n c = 3;; d = 4\n e = 5;  ! note\n f = 6 ; ; g = 7 ;\nend\n",
     "module m\n interface g\n module procedure a, b\n end interface g\ncontains\n subroutine a\n end subroutine a\n subroutine b\n end subroutine b\nend module m\n",
 ]
 
 
 def plan(tier, seed):
-    return scenarios.tasks(tier) + [("X", i) for i in range(len(EXTRA))]
+    from mc import layout
+
+    lay = [("LAY", i, sh, 4, tier) for i in range(len(layout.focus_programs())) for sh in range(4)]
+    return scenarios.tasks(tier) + [("X", i) for i in range(len(EXTRA))] + lay
+
+
+def run_layouts(task):
+    """trees of laid-out sources (continuations, ';' joins incl. chains and
+    empty parts, comments): the reader may deliver items in unusual ways"""
+    from mc import layout, explore
+    from mc.runner import Result
+
+    _, fi, shard, nshards, tier = task
+    name, prog, only = layout.focus_programs()[fi]
+    opts = {"only": only, "styles": layout.STYLES_FOCUS, "case": False, "indents": False}
+    res = Result()
+    n = 0
+    for vec, ch, lay in explore.explore(lambda ch: layout.render_free(prog, ch, opts), 2 if tier == "quick" else 3):
+        n += 1
+        if n % nshards != shard:
+            continue
+        for ic in ((True, False) if len([v for v in vec if v]) <= 1 else (False,)):
+            check_src(res, "LAY/%s/" % name, lay.text, "f2003", ic, "LAY/" + ",".join(sorted(f.split(":")[0] for f in lay.features)))
+    return res
 
 
 def judge(src, std, ic):
@@ -77,7 +101,7 @@ def check_src(res, cid, src, std, ic, tag):
         res.nontrivial.add(hk)
     res.outcomes["wellformed" if not vs else "malformed"] += 1
     for kind, probs in vs:
-        res.violation(sig_of(kind, probs, tag), "%s std=%s ic=%s %s:\n  %s\n--- source:\n%s" % (cid, std, ic, kind, "\n  ".join(probs), src), {"src": src, "std": std, "ic": ic, "cid": cid}, cost=len(src))
+        res.violation(sig_of(kind, probs, tag), "%s std=%s ic=%s %s:\n  %s\n--- source:\n%s" % (cid, std, ic, kind, "\n  ".join(probs), src), {"src": src, "std": std, "ic": ic, "cid": cid, "tag": tag}, cost=len(src))
 
 
 def _nodes(tree):
@@ -92,6 +116,8 @@ def _nodes(tree):
 
 
 def run(task):
+    if task[0] == "LAY":
+        return run_layouts(task)
     if task[0] == "X":
         from mc.runner import Result
 
@@ -105,5 +131,5 @@ def run(task):
 
 def replay(case):
     vs, o = judge(case["src"], case["std"], case["ic"])
-    tag = scenarios.feature_tag(case["cid"])
+    tag = case.get("tag") or scenarios.feature_tag(case["cid"])
     return [{"sig": sig_of(k, p, tag), "detail": "\n".join(p)} for k, p in (vs or [])]
